@@ -18,7 +18,7 @@ Accept(e) ==
   \* scale relation: f(z * 2^s) scaled back by the exact power of two agrees with f(z) (s = +-600, float +-70)
   /\ (a.k = "h" => /\ Finite(a.w) /\ Finite(a.ws)
                    \* the logarithm relation subtracts s * ln 2 from a result of that size: conditioned by |s ln 2 / log z|, judged with the coarse threshold
-                   /\ (IF a.fn \in {"log", "logabs"} THEN NotFar(a.w, a.ws, e.width) ELSE Close(a.w, a.ws, e.width)))
+                   /\ (IF a.fn \in {"log", "logabs"} THEN NotFarCoarse(a.w, a.ws, e.width) ELSE Close(a.w, a.ws, e.width)))
   \* the two calling forms of one operation (and the component-wise definitions of add/sub with a scalar) give the same value
   /\ (a.k = "e" => a.w = a.ws)
   /\ (a.k \in {"r", "r2"} => Finite(a.y))
